@@ -9,12 +9,14 @@
 #define T_LARGE 0x1Fu
 #define T_EXTERNAL 0x20u
 #define SSO_CAP 30u
-char g_old[VERIF_SCAP + 1];           /* ghost: contents on entry */
+#define OLDN ((VERIF_SCAP > 30 ? VERIF_SCAP : 30) + 1)   /* embedded strings hold up to 30 characters */
+char g_old[OLDN];                     /* ghost: contents on entry */
 uint64_t g_old_size, g_old_cap; uint8_t g_old_type; char* g_old_data;
+char* g_old_heap;                     /* ghost: the buffer the string owns on entry (kTypeLarge), else NULL - named so that the frees clause is unconditional */
 size_t g_i;                           /* ghost byte index */
 size_t nondet_size_t(void);
 #define VERIF_GHOST_INIT() (g_i = nondet_size_t(), __CPROVER_havoc_object(g_old), __CPROVER_havoc_object(&g_old_size), __CPROVER_havoc_object(&g_old_cap), \
-   __CPROVER_havoc_object(&g_old_type), __CPROVER_havoc_object(&g_old_data))
+   __CPROVER_havoc_object(&g_old_type), __CPROVER_havoc_object(&g_old_data), __CPROVER_havoc_object(&g_old_heap))
 
 static inline _Bool c_is_heap(const struct String* s) { return s->_type >= T_LARGE; }
 static inline const char* c_str_data(const struct String* s) { return c_is_heap(s) ? s->_large.data : s->_small.data; }
@@ -28,14 +30,15 @@ static inline _Bool c_str_wf_pre(const struct String* s) {
 }
 static inline _Bool c_str_snap(const struct String* s) {
   if (g_old_type != s->_type || g_old_size != c_str_size(s) || g_old_cap != c_str_cap(s) || g_old_data != c_str_data(s)) return 0;
-  for (unsigned i = 0; i <= VERIF_SCAP; i++) if (i <= g_old_size && g_old[i] != c_str_data(s)[i]) return 0;
+  for (unsigned i = 0; i < OLDN; i++) if (i <= g_old_size && g_old[i] != c_str_data(s)[i]) return 0;
   return 1;
 }
 #define STR_PRE(self) \
   __CPROVER_requires(__CPROVER_is_fresh(self, sizeof(*self))) \
   __CPROVER_requires(self->_type < T_LARGE || __CPROVER_is_fresh(self->_large.data, VERIF_SCAP + 1)) \
   __CPROVER_requires(c_str_wf_pre(self)) \
-  __CPROVER_requires(c_str_snap(self))
+  __CPROVER_requires(c_str_snap(self)) \
+  __CPROVER_requires(self->_type == T_LARGE ? g_old_heap == self->_large.data : __CPROVER_is_fresh(g_old_heap, 1))   /* (a dummy object otherwise: was_freed wants a live target) */
 
 static inline int c_prepare_post(const struct String* s, uint32_t op, uint64_t size, const char* ret) {
   uint64_t want = op == 0 ? size : g_old_size + size;           /* ModifyOp::kAssign = 0, kAppend = 1 */
@@ -46,20 +49,111 @@ static inline int c_prepare_post(const struct String* s, uint32_t op, uint64_t s
   }
   if (c_str_size(s) != want) return 3;                           /* size is what was asked for */
   if (c_str_cap(s) < want) return 4;                             /* capacity covers it */
-  if (c_str_data(s)[want] != 0) return 5;                        /* NUL terminated */
   if (ret != c_str_data(s) + (op == 0 ? 0 : g_old_size)) return 6;   /* the caller writes its `size` bytes here */
   if (op != 0 && g_i < g_old_size && c_str_data(s)[g_i] != g_old[g_i]) return 7;   /* append keeps every old byte */
   if (g_old_type == T_EXTERNAL && g_old_data == c_str_data(s) && s->_type != T_EXTERNAL) return 8;   /* an external buffer stays external while it is used */
   if (c_str_data(s) == g_old_data && (c_str_cap(s) != g_old_cap || s->_type > T_EXTERNAL)) return 9;   /* in-place: representation kept */
+  if (c_str_data(s)[want] != 0) return 5;                        /* NUL terminated (checked after the capacity clauses: the index is then inside the buffer) */
   return 0;
 }
+#define PINP(lv, val) __CPROVER_pointer_in_range_dfcc(val, lv, val)
 #define CONTRACT_String_prepare \
   STR_PRE(self) \
   __CPROVER_requires(op <= 1 && size <= ((uint64_t)1 << 40)) \
   __CPROVER_assigns(*self) \
   __CPROVER_assigns(self->_type >= T_LARGE: __CPROVER_object_whole(self->_large.data)) \
-  __CPROVER_frees(self->_type == T_LARGE: self->_large.data) \
-  __CPROVER_ensures(c_prepare_post(self, op, size, __CPROVER_return_value) == 0) \
+  __CPROVER_frees(g_old_heap) \
   /* the old heap buffer is released exactly when it was owned (kTypeLarge) and replaced */ \
-  __CPROVER_ensures((g_old_type == T_LARGE && __CPROVER_return_value != NULL && c_str_data(self) != g_old_data) ==> __CPROVER_was_freed(__CPROVER_old(self->_large.data)))
+  __CPROVER_ensures(!(g_old_type == T_LARGE && __CPROVER_return_value != NULL && c_str_data(self) != g_old_data) || __CPROVER_was_freed(g_old_heap)) \
+  /* ... and kept alive whenever it is still the string's buffer (or the call failed) */ \
+  __CPROVER_ensures(!(g_old_type == T_LARGE && (__CPROVER_return_value == NULL || c_str_data(self) == g_old_data)) || !__CPROVER_was_freed(g_old_heap)) \
+  /* P0 (for callers verified against this contract; stated before the main postcondition and with is_fresh / pointer_in_range because \
+   * CBMC resolves dereferences by value sets): the buffer afterwards is the old one or a fresh one of the required size, the result points into it */ \
+  __CPROVER_ensures(!c_is_heap(self) || \
+     (self->_large.data == __CPROVER_old(self->_large.data) && __CPROVER_old(self->_type) >= T_LARGE \
+        ? PINP(self->_large.data, __CPROVER_old(self->_large.data)) \
+        : (__CPROVER_return_value != NULL && __CPROVER_is_fresh(self->_large.data, (op == 0 ? size : g_old_size + size) + 1)))) \
+  __CPROVER_ensures(__CPROVER_return_value == NULL || PINP(__CPROVER_return_value, (char*)c_str_data(self) + (op == 0 ? 0 : g_old_size))) \
+  __CPROVER_ensures(c_prepare_post(self, op, size, __CPROVER_return_value) == 0)
+
+/* ---- the operations built on prepare (prepare is inlined in these units: replacing it by its contract ran into dfcc's handling of
+ *      was_freed / pointer_in_range in assumed postconditions; the clauses P0 above remain as a stronger checked contract): the string afterwards is exactly what the textbook
+ *      string operation yields - assign: the source; append: old contents followed by the source; fill variants likewise; truncate:
+ *      the prefix - NUL-terminated, with size/capacity consistent; an allocation failure leaves the string as it was.
+ *      Sources are separate buffers of VERIF_SRC bytes (a source aliasing the string's own buffer is outside this contract). ---- */
+#ifndef VERIF_SRC
+#define VERIF_SRC 12
+#endif
+char g_src[VERIF_SRC];                 /* ghost: the source bytes on entry */
+#undef VERIF_GHOST_INIT
+#define VERIF_GHOST_INIT() (g_i = nondet_size_t(), __CPROVER_havoc_object(g_old), __CPROVER_havoc_object(&g_old_size), __CPROVER_havoc_object(&g_old_cap), \
+   __CPROVER_havoc_object(&g_old_type), __CPROVER_havoc_object(&g_old_data), __CPROVER_havoc_object(&g_old_heap), __CPROVER_havoc_object(g_src))
+static inline uint64_t c_src_len(void) { for (unsigned i = 0; i < VERIF_SRC; i++) if (g_src[i] == 0) return i; return VERIF_SRC; }
+static inline _Bool c_src_snap(const char* p) { for (unsigned i = 0; i < VERIF_SRC; i++) if (g_src[i] != p[i]) return 0; return 1; }
+/* op: 0 assign, 1 append; n source length; fill: the source is n copies of c */
+static inline int c_str_result(const struct String* s, uint32_t ret, uint32_t op, uint64_t n, _Bool fill, char c) {
+  if (ret == 1 /* kOutOfMemory */) {
+    if (s->_type != g_old_type || c_str_size(s) != g_old_size || c_str_cap(s) != g_old_cap || c_str_data(s) != g_old_data) return 20;
+    if (g_i <= g_old_size && c_str_data(s)[g_i] != g_old[g_i]) return 21;
+    return 0;
+  }
+  if (ret != 0) return 22;
+  uint64_t base = op == 0 ? 0 : g_old_size, want = base + n;
+  if (c_str_size(s) != want) return 23;                                  /* S1 exactly the textbook length */
+  if (c_str_cap(s) < want || s->_type > T_EXTERNAL) return 24;
+  if (c_str_data(s)[want] != 0) return 25;                                /* S2 NUL terminated */
+  if (g_i < base && c_str_data(s)[g_i] != g_old[g_i]) return 26;          /* S3 append keeps the old contents */
+  if (g_i >= base && g_i < want && c_str_data(s)[g_i] != (fill ? c : g_src[g_i - base])) return 27;   /* S4 followed by the source */
+  return 0;
+}
+#ifdef VERIF_STR_EMBEDDED_ONLY
+#define STR_SHAPE(self) __CPROVER_requires(self->_type < T_LARGE)   /* quick tier: embedded pre-states only */
+#else
+#define STR_SHAPE(self)
+#endif
+#define STR_FRAME(self) STR_SHAPE(self) \
+  __CPROVER_assigns(*self) \
+  __CPROVER_assigns(self->_type >= T_LARGE: __CPROVER_object_whole(self->_large.data)) \
+  __CPROVER_frees(g_old_heap)
+#define CONTRACT_String__op_string \
+  STR_PRE(self) STR_FRAME(self) \
+  __CPROVER_requires(op <= 1 && __CPROVER_is_fresh(str, VERIF_SRC) && c_src_snap(str)) \
+  __CPROVER_requires(size <= VERIF_SRC || (size == UINT64_MAX && str[VERIF_SRC - 1] == 0)) \
+  __CPROVER_ensures(c_str_result(self, __CPROVER_return_value, op, __CPROVER_old(size) == UINT64_MAX ? c_src_len() : __CPROVER_old(size), 0, 0) == 0)
+#define CONTRACT_String_assign__char_p_u64 \
+  STR_PRE(self) STR_FRAME(self) \
+  __CPROVER_requires(__CPROVER_is_fresh(data, VERIF_SRC) && c_src_snap(data)) \
+  __CPROVER_requires(size <= VERIF_SRC || (size == UINT64_MAX && data[VERIF_SRC - 1] == 0)) \
+  __CPROVER_ensures(c_str_result(self, __CPROVER_return_value, 0, __CPROVER_old(size) == UINT64_MAX ? c_src_len() : __CPROVER_old(size), 0, 0) == 0)
+#ifdef HAVE_STRUCT_Span_char
+#define CONTRACT_String_assign__Span_char \
+  STR_PRE(self) STR_FRAME(self) \
+  __CPROVER_requires(__CPROVER_is_fresh(span._data, VERIF_SRC) && c_src_snap(span._data) && span._size <= VERIF_SRC) \
+  __CPROVER_ensures(c_str_result(self, __CPROVER_return_value, 0, span._size, 0, 0) == 0)
+#endif
+#define CONTRACT_String__op_char \
+  STR_PRE(self) STR_FRAME(self) \
+  __CPROVER_requires(op <= 1) \
+  __CPROVER_ensures(c_str_result(self, __CPROVER_return_value, op, 1, 1, c) == 0)
+#define CONTRACT_String__op_chars \
+  STR_PRE(self) STR_FRAME(self) \
+  __CPROVER_requires(op <= 1 && n <= VERIF_SRC) \
+  __CPROVER_ensures(c_str_result(self, __CPROVER_return_value, op, n, 1, c) == 0)
+#define CONTRACT_String_pad_end \
+  STR_PRE(self) STR_FRAME(self) \
+  __CPROVER_requires(n <= g_old_size + VERIF_SRC) \
+  __CPROVER_ensures(c_str_result(self, __CPROVER_return_value, 1, n > g_old_size ? n - g_old_size : 0, 1, c) == 0)
+static inline int c_truncate_post(const struct String* s, uint32_t ret, uint64_t new_size) {
+  uint64_t want = new_size < g_old_size ? new_size : g_old_size;
+  if (ret != 0) return 30;
+  if (s->_type != (c_is_heap(s) ? g_old_type : (uint8_t)want) || c_str_size(s) != want || c_str_cap(s) != g_old_cap || c_str_data(s) != g_old_data) return 31;
+  if (c_str_data(s)[want] != 0) return 32;
+  if (g_i < want && c_str_data(s)[g_i] != g_old[g_i]) return 33;
+  return 0;
+}
+#define CONTRACT_String_truncate \
+  STR_PRE(self) \
+  __CPROVER_assigns(*self) \
+  __CPROVER_assigns(self->_type >= T_LARGE: __CPROVER_object_whole(self->_large.data)) \
+  __CPROVER_ensures(c_truncate_post(self, __CPROVER_return_value, new_size) == 0)
 #endif
